@@ -30,8 +30,8 @@ ASSUMPTIONS = [
     "sensitivity-sample is exercised through tools._sensitivity_task with the simulations stubbed at the harness boundary (sensitivity_command replaced by a recorder); the generated wN.csv files are the observable",
 ]
 NSHARDS = {"quick": 16, "thorough": 16}
-N_SNAP = {"quick": 60, "thorough": 8000}
-N_JIT = {"quick": 40, "thorough": 5000}
+N_SNAP = {"quick": 60, "thorough": 3000}
+N_JIT = {"quick": 40, "thorough": 2000}
 N_SENS = {"quick": 1, "thorough": 20}
 REQUIRE = {"snap:on_grid_strict": 5000, "snap:off_grid": 3000, "snap:near_grid": 300, "snap_double_checked": 8000, "snap:beyond_2^23_ticks": 1000,
            "jitter_pipelines": 3000, "jitter_pairs_same_seed": 100, "jitter_pairs_diff_seed": 100, "jitter_reordered_outputs": 50,
